@@ -306,3 +306,31 @@ func Components(g *G) [][]int {
 	}
 	return out
 }
+
+// ParseGraph6 decodes a well-formed graph6 string (no header); used to carry graphs compactly in cases.
+func ParseGraph6(s string) (*G, error) {
+	b := []byte(s)
+	n, used, err := ParseSizeField(b)
+	if err != nil {
+		return nil, err
+	}
+	b = b[used:]
+	need := (n*(n-1)/2 + 5) / 6
+	if len(b) != need {
+		return nil, fmt.Errorf("graph6 body has %d bytes, want %d", len(b), need)
+	}
+	g := New(n)
+	pos := 0
+	for j := 1; j < n; j++ {
+		for i := 0; i < j; i++ {
+			if b[pos/6] < 63 || b[pos/6] > 126 {
+				return nil, errors.New("byte out of range")
+			}
+			if int(b[pos/6]-63)>>uint(5-pos%6)&1 == 1 {
+				g.Add(i, j)
+			}
+			pos++
+		}
+	}
+	return g, nil
+}
